@@ -9,7 +9,7 @@ if utils.SAGE_AVAILABLE:
     from ..utils import sagewrap
 
 def binom(n, k, **kwargs):
-    return utils.number(scipy.special.binom(n, k),
+    return utils.number(scipy.special.comb(n, k, exact=True),
                         **kwargs)
 
 def _convert_vector(vector, like=None, autoconvert=True):
